@@ -745,7 +745,9 @@ Proof.
   unfold model_faces, facesA, facesB. rewrite app_length.
   rewrite (patch_faces_as_repl (g_startA g) (g_shA g) (g_dA g) (g_sideA g) HdA).
   rewrite (patch_faces_as_repl (g_startB g) (g_shB g) (g_dB g) (g_sideB g) HdB).
-  rewrite !(length_repl (g_startA g)) by exact HdA. rewrite !(length_repl (g_startB g)) by exact HdB.
+  rewrite (length_repl _ _ _ _ (interface_faces g) HdA).
+  rewrite (length_repl _ _ _ _ (boundary_faces (g_startA g) (g_shA g) (g_dA g) (g_sideA g)) HdA).
+  rewrite (length_repl _ _ _ _ (boundary_faces (g_startB g) (g_shB g) (g_dB g) (g_sideB g)) HdB).
   destruct (interface_count g Hwf) as [-> _].
   destruct (face_count_dir (g_startA g) (g_shA g) (g_dA g) HdA HpA) as (_ & L1 & L2).
   destruct (face_count_dir (g_startB g) (g_shB g) (g_dB g) HdB HpB) as (_ & L3 & L4).
@@ -863,20 +865,3 @@ chk (mkGluing (1,2,3) 0 2 true (2,1,2) 6 2 false true true true) [(0, None); (1,
 ] = true.
 Proof. vm_compute. reflexivity. Qed.
 
-Print Assumptions interface_neighbor_adjacent.
-Print Assumptions embB_interface.
-Print Assumptions interface_pair_once.
-Print Assumptions cross_pair_is_interface.
-Print Assumptions facesB_not_A.
-Print Assumptions facesA_touching_B.
-Print Assumptions interface_neighbors_onto.
-Print Assumptions cellA_six_faces.
-Print Assumptions cellB_six_faces.
-Print Assumptions cell_number_six_faces2.
-Print Assumptions interface_assert_iff.
-Print Assumptions interface_owner_gt.
-Print Assumptions model_faces_final_assert.
-Print Assumptions interface_face_orientation.
-Print Assumptions interface_face_nodes.
-Print Assumptions model_face_count.
-Print Assumptions crosscheck_48.
